@@ -5,7 +5,7 @@
    3. everything over arbitrary insert/remove histories. *)
 From Coq Require Import NArith List Bool Sorted Lia Permutation.
 From Coq Require Import ZifyBool ZifyN.
-From FV Require Import Rb.RbModel Rb.RbInorder Rb.RbInvariant Rb.RbLayout Rb.RbHistory Rb.RbAnnot Interval.IntervalModel.
+From FV Require Import Rb.RbModel Rb.RbInorder Rb.RbInvariant Rb.RbLayout Rb.RbHistory Rb.RbAnnot Interval.IntervalModel Interval.IntervalPath.
 Import ListNotations.
 Local Open Scope N_scope.
 
@@ -331,3 +331,18 @@ Proof.
   - intros (e & He & H1 & H2). destruct (snd (ovl lb ub t)); [reflexivity|].
     specialize (Nf eq_refl). pose proof (filter_nil_none _ _ e Nf He) as Hn. unfold ovl_spec in Hn. lia.
 Qed.
+
+(* ---------------------------------------------------------------------------------------------
+   4. the public aggregate_path on the interval instance: overwrite the element of node i (same identity), call
+   aggregate_path(node i) with the early stop: exact again, and the same tree as without the early stop *)
+Theorem iaggregate_path_restores (i : N) (x' : ielt) (t : itree) : iid x' = i -> annot_exact t ->
+  annot_exact (iaggregate_path true i (set_elt iid i x' t))
+  /\ iaggregate_path true i (set_elt iid i x' t) = iaggregate_path false i (set_elt iid i x' t).
+Proof.
+  intros Hi Hx. apply ann_ok_exact in Hx.
+  destruct (set_then_aggregate_path ielt N iid iagg N.eqb N.eqb_eq i x' t Hi Hx) as [A B].
+  split; [apply ann_ok_exact, A|exact B].
+Qed.
+
+Theorem iaggregate_path_clean (i : N) (t : itree) : annot_exact t -> iaggregate_path true i t = t.
+Proof. intros Hx. apply ann_ok_exact in Hx. exact (proj1 (aggregate_path_clean ielt N iid iagg N.eqb N.eqb_eq i t Hx)). Qed.
